@@ -69,6 +69,8 @@ extern crate alloc;
 mod raw;
 
 mod external_trait_impls;
+#[cfg(feature = "verif-hooks")]
+pub mod verif;
 mod map;
 mod set;
 
